@@ -149,11 +149,18 @@ func c19MakeEntry(r *fw.Rng, e int, variant int) c19Entry {
 			ac.msaTxt = gen.RenderFasta(recs, 0)
 		}
 		agg := e == 5
+		nameSuffix := ""
+		if variant%3 == 2 {
+			// an alignment that holds nothing but the reference record: the header is the whole output
+			ac.refID = ac.an.RefName
+			ac.msaTxt = gen.RenderFasta([]gen.FastaRec{{ID: ac.an.RefName, Desc: ac.an.RefName, Seq: ac.msa.RefRow}}, 0)
+			nameSuffix = " (reference-only alignment)"
+		}
 		argv := []string{"variants", "--msa", "{msa.fasta}", "-r", ac.refID, "-a", "{anno." + ac.format + "}", "-o", "{out}", "-t", "2"}
 		if agg {
 			argv = append(argv, "--aggregate")
 		}
-		return c19Entry{name: "variants" + map[bool]string{true: " --aggregate"}[agg], argv: argv,
+		return c19Entry{name: "variants" + map[bool]string{true: " --aggregate"}[agg] + nameSuffix, argv: argv,
 			files: map[string]string{"msa.fasta": ac.msaTxt, "anno." + ac.format: ac.annoTxt},
 			call: func(w io.Writer) error {
 				return variants.Variants(bytes.NewReader([]byte(ac.msaTxt)), false, ac.refID, strings.NewReader(ac.annoTxt), ac.format, w, -1, -1, agg, 0, false, 2)
